@@ -9,7 +9,7 @@ python3 tools/gen.py >/dev/null || exit 1
 cp -n /repo/Cargo.lock harness/Cargo.lock 2>/dev/null
 ( cd harness && cargo build --offline ) &
 P1=$!
-( RUSTFLAGS="--cfg veryl_verif" cargo build --offline --manifest-path /repo/Cargo.toml --target-dir /verif/.cache/target-cli -p veryl -p veryl-ls ) &
+( RUSTFLAGS="--cfg veryl_verif" cargo build --offline --config profile.dev.package.blake3.opt-level=3 --manifest-path /repo/Cargo.toml --target-dir /verif/.cache/target-cli -p veryl -p veryl-ls ) &
 P2=$!
 wait $P1 || exit 1
 wait $P2 || exit 1
